@@ -4,6 +4,7 @@ import (
 	"fmt"
 	"go/token"
 	"go/types"
+	"strings"
 
 	"golang.org/x/tools/go/ssa"
 )
@@ -157,6 +158,7 @@ func (f *Frame) instr(ins ssa.Instruction, st *State) bool {
 		f.safety(st, "nilmap", x, Neq(m, IntLit(0)))
 		f.needLock(f.val(x.Map, st).G, 2, st, x, "map update")
 		f.mapStore(x.Map.Type(), m, k, &v, st)
+		f.runGhostHooks("mapupdate", map[string]Val{"updated_map": f.val(x.Map, st), "updated_key": f.val(x.Key, st), "updated_value": f.val(x.Value, st)}, st)
 	case *ssa.Range:
 		f.rangeStart(x, st)
 	case *ssa.Next:
@@ -165,6 +167,25 @@ func (f *Frame) instr(ins ssa.Instruction, st *State) bool {
 		res := f.call(&x.Call, x, st, x.Pos())
 		res.Go = x.Type()
 		f.vals[x] = res
+		if sc := x.Call.StaticCallee(); sc != nil {
+			f.runGhostHooks("call:"+sc.String(), map[string]Val{"result": res}, st)
+		} else if pv, ok := x.Call.Value.(*ssa.Parameter); ok {
+			extra := map[string]Val{"result": res}
+			for i, a := range x.Call.Args {
+				extra[fmt.Sprintf("arg%d", i)] = f.val(a, st)
+				// arg<i>_owner: the object whose field is passed (x.f as an argument)
+				if ld, ok := a.(*ssa.UnOp); ok {
+					if fa, ok := ld.X.(*ssa.FieldAddr); ok {
+						if ov, ok := f.vals[fa.X]; ok && ov.T.S != "" {
+							extra[fmt.Sprintf("arg%d_owner", i)] = Val{T: ov.T, Go: fa.X.Type()}
+						}
+					}
+				}
+			}
+			f.runGhostHooks("callparam:"+pv.Name(), extra, st)
+		} else if b, ok := x.Call.Value.(*ssa.Builtin); ok && b.Name() == "delete" {
+			f.runGhostHooks("delete", map[string]Val{"deleted_map": f.val(x.Call.Args[0], st), "deleted_key": f.val(x.Call.Args[1], st)}, st)
+		}
 	case *ssa.Defer:
 		d := deferred{call: &x.Call, pos: x.Pos()}
 		for _, a := range x.Call.Args {
@@ -829,4 +850,72 @@ func lvDesc(lv *LVal) string {
 		return "element of " + lv.Heap
 	}
 	return "location"
+}
+
+// runGhostHooks executes the ghost assignments declared for this program point (`ghost-after`).
+// Only ghost fields and ghost variables can be assigned, so the executable state is untouched.
+func (f *Frame) runGhostHooks(event string, extra map[string]Val, st *State) {
+	un := f.un
+	hooks := un.eng.ghostHooks[f.fn.String()+"|"+event]
+	if len(hooks) == 0 {
+		return
+	}
+	env := map[string]Val{}
+	if f.curBlock != nil {
+		for k, v := range f.baseEnv(f.curBlock, st) {
+			env[k] = v
+		}
+	}
+	for k, v := range extra {
+		env[k] = v
+	}
+	pre := st.clone()
+	for _, h := range hooks {
+		for _, set := range h.Sets {
+			lhs := strings.TrimPrefix(set.Kind, "set:")
+			rhs := f.eval(set.E, &evalCtx{env: env, cur: &pre, old: &f.top().entry})
+			le, err := ParseExpr(lhs)
+			if err != nil {
+				f.fail("%s: %v", set.Pos, err)
+			}
+			switch x := le.(type) {
+			case EIdent:
+				if !strings.HasPrefix(x.Name, "#") {
+					f.fail("%s: only ghost state can be set", set.Pos)
+				}
+				g := x.Name[1:]
+				srt, ok := un.eng.ghostVars[g]
+				if !ok {
+					f.fail("%s: unknown ghost variable %s", set.Pos, x.Name)
+				}
+				if rhs.T.Sort == "nil" {
+					rhs.T = un.u.Zero(srt)
+				}
+				un.heapInit("G_"+sanitize(g), srt)
+				un.setH(st, "G_"+sanitize(g), rhs.T)
+			case EField:
+				if !strings.HasPrefix(x.Name, "#") {
+					f.fail("%s: only ghost fields can be set", set.Pos)
+				}
+				obj := f.eval(x.X, &evalCtx{env: env, cur: &pre, old: &f.top().entry})
+				T, sty := derefStruct(obj.Go)
+				if sty == nil || obj.LV != nil {
+					f.fail("%s: ghost field of a non-object", set.Pos)
+				}
+				si := un.sinfo(T)
+				idx := si.fieldIndex(x.Name)
+				if idx < 0 {
+					f.fail("%s: no ghost field %s", set.Pos, x.Name)
+				}
+				if rhs.T.Sort == "nil" {
+					rhs.T = un.u.Zero(si.fields[idx].sort)
+				}
+				hn := un.fieldHeap(T, x.Name)
+				h := un.H(st, hn, ArrSort(SInt, si.fields[idx].sort))
+				un.setH(st, hn, Store(h, obj.T, rhs.T))
+			default:
+				f.fail("%s: unsupported ghost assignment target", set.Pos)
+			}
+		}
+	}
 }
